@@ -145,6 +145,14 @@ def check(ctx):
             h = st.heap[est.obj.id]
             okE = h["alpha_type"].const == "relative" and h["regularization_method"].const == "cutoff" and h["random_state"].has_const and h["random_state"].const is not None and h["shuffle"].const is True
         ctx.ob("R-DEFAULTS", "default estimator is Ridge2FoldCV(relative cut-off, fixed seed)", okE, f"{est!r}", site)
+    # the default model selection of the estimator class used here is rotation invariant
+    Ir = ctx.interp(assume=protocols.assume_default, call_hook=protocols.fold_hook)
+    sr = State()
+    orr = ctx.construct(Ir, sr, "skmatter.linear_model.Ridge2FoldCV", alphas=arr("alphas", "G"))
+    ctx.call_method(Ir, sr, orr, "fit", arr("Xr", "N", "M"), arr("yr", "N", "P"))
+    calls = [e for e in Ir.events if e["kind"] == "scorer-call"]
+    okr = bool(calls) and all(e["scorer"].extra is not None and e["scorer"].extra.has_const and e["scorer"].extra.const == "neg_mean_squared_error" for e in calls)
+    ctx.ob("R-DEFAULTS", "Ridge2FoldCV without an explicit scoring selects by mean squared error (invariant under target rotations)", okr, f"{[repr(e['scorer'].term) for e in calls[:1]]}", ctx.site(P.method(P.cls("skmatter.linear_model.Ridge2FoldCV"), "fit")))
     for missing in ("train", "test"):
         I, st = ctx.interp(), State()
         a = (vconst(None), te) if missing == "train" else (tr, vconst(None))
